@@ -11,6 +11,7 @@ BOUNDS = {
               'settings': 'pre-parse x remove-args, all four (shape)', 'symbolic per query': 'three 32-bit masks (overlapping or not), two 64-bit flag words, integer targets'},
     'thorough': {'argument words': '0..2 (every sequence, all four settings), every 8th 3-word sequence (two settings each), every 4-word sequence over the reduced 8-token alphabet', 'table variants': '3', 'symbolic per query': 'as quick'},
 }
+SAMPLED = {'quick': '3-word sequences (every 128th, scrambled index) and 4-word sequences over the reduced alphabet (every 4th) are samples; 0..2 words are complete', 'thorough': '3-word sequences are a sample (every 8th); 0..2 words and the 4-word reduced-alphabet sequences are complete'}
 RULE = 'C08 shapes: (table variant, token sequence); the token alphabet is harness/c08_opts.c:tokens.'
 ASSUMPTIONS = ['the ideal reading is harness/c08_opts.c:ref_parse (written from the property statement and the documented value-discovery rules)',
                'a lone "-" and unknown options may stay in argv or go; their bad-option count is only required to be non-zero',
